@@ -19,6 +19,8 @@ pub mod c04;
 pub mod c05;
 #[cfg(feature = "c06")]
 pub mod c06;
+#[cfg(feature = "c09")]
+pub mod c09;
 #[cfg(feature = "c10")]
 pub mod c10;
 #[cfg(feature = "c12")]
